@@ -49,6 +49,9 @@ func (c *CNF) UnmarshalCBOR(data []byte) error {
 	if err != nil {
 		return errs.Wrap(err).WithMessage("failed to unmarshal CNF access structure")
 	}
+	if dto == nil {
+		return ErrIsNil.WithMessage("CNF DTO is nil")
+	}
 
 	maximalUnqualifiedSets := make([]ds.Set[ID], len(dto.MaximalUnqualifiedSets))
 	for i, u := range dto.MaximalUnqualifiedSets {
